@@ -178,6 +178,41 @@ func verifBody_C19_two_asns() bool {
 	pp := m.udpServiceMetrics.packetsFromClientPerLocation
 	counted := verifCounterValue(pp, "int", "AA", "64500", "Org-even", "OK") == int64(n) && verifCounterValue(pp, "int", "BB", "64501", "Org-odd", "OK") == int64(n)
 	verifAssert("C19.two-asns.each-counted-under-its-own-labels", counted)
+	// ... and so are the bytes, none lost to the scrape that ran meanwhile
+	pk := m.udpServiceMetrics.proxyCollector.dataBytesPerKey
+	bytesOK := verifCounterValue(pk, "int", "c>p", "k-even") == int64(10*n) && verifCounterValue(pk, "int", "p>t", "k-even") == int64(5*n) &&
+		verifCounterValue(pk, "int", "c>p", "k-odd") == int64(10*n) && verifCounterValue(pk, "int", "p>t", "k-odd") == int64(5*n)
+	verifAssert("C19.two-asns.bytes-all-counted|C16.two-asns.bytes-all-counted", bytesOK)
+	counted = counted && bytesOK
 	verifReach("C19.two-asns.done", true)
 	return ok && counted
+}
+
+// two scrapes at the same time while a client has a tunnel open: its time is counted once
+func VH_C19_two_scrapes_at_once() {
+	for rep := 0; rep < verifRepeat(400); rep++ {
+		if !verifBody_C19_two_scrapes() {
+			return
+		}
+	}
+}
+
+func verifBody_C19_two_scrapes() bool {
+	verifRaceDetect(true)
+	verifSched(1)
+	verifInstallClock(1 << 41)
+	c := newTunnelTimeMetrics(nil)
+	k1 := IPKey{netip.AddrFrom4([4]byte{203, 0, 113, 5}), "k1"}
+	c.startConnection(k1)
+	verifClockNs += 10 << 30 // about ten seconds later
+	verifPar(
+		func() { c.Collect(make(chan prometheus_Metric, 16)) },
+		func() { c.Collect(make(chan prometheus_Metric, 16)) },
+	)
+	got := verifCounterValue(c.tunnelTimePerKey, "ns", "k1")
+	ok := verifEqNanos(got, 10<<30)
+	verifAssert("C19.two-scrapes.time-counted-once|C17.two-scrapes.time-counted-once", ok)
+	c.stopConnection(k1)
+	verifReach("C19.two-scrapes.done", true)
+	return ok
 }
